@@ -51,6 +51,7 @@ def run(ck):
     rng = np.random.default_rng(ck.seed + 1313)
     Ks = range(2, 8) if ck.tier == 'quick' else range(2, 13)
     cases = []; meta = {}
+    alive = {}
     for K in Ks:
         for counts in count_vectors(K, rng, ck.tier):
             labels = np.repeat(np.arange(K), counts)
@@ -128,6 +129,21 @@ def run(ck):
                     wm = np.clip(wm, EPS, 1 - EPS); wm = wm / wm.sum()
                     if np.max(np.abs(pm - wm)) > 5e-5:
                         probs.append(f'mixture 0.3 C_0 + 0.7 C_K-1 decodes to {pm.tolist()} instead of the same mixture of classes')
+                # several converters with the same number of classes are alive at once (folds, several models): the one built BEFORE this one is
+                # examined again now — zero must still decode to ITS class frequencies and its labels must still round-trip
+                if mode == 'prevalence':
+                    prev = alive.get(K)
+                    if prev is not None:
+                        pconv, pcounts, plab = prev
+                        ptot = float(sum(pcounts))
+                        wantp = np.clip(np.array(pcounts, dtype=float) / ptot, EPS, 1 - EPS); wantp = wantp / wantp.sum()
+                        pz = pconv.numerical_to_probas(torch.zeros(1, K - 1)).double().numpy()[0]
+                        ck.count('earlier converter re-examined while a later one is alive')
+                        if np.max(np.abs(pz - wantp)) > 2e-5:
+                            probs.append(f'after a second converter with the same K was built (counts {counts}), zero decodes on the FIRST converter (counts {pcounts}) to {pz.tolist()} instead of its own frequencies {wantp.tolist()}')
+                        if not torch.equal(pconv.numerical_to_labels(pconv.labels_to_numerical(plab)).long(), plab):
+                            probs.append(f'after a second converter with the same K was built, decode(encode(labels)) != labels on the first converter (counts {pcounts})')
+                    alive[K] = (conv, counts, lab_t)
                 for p_ in dict.fromkeys(probs):
                     ck.violation(p_ + f' on {desc}', dict(desc, problem=p_), key=json.dumps(dict(site='converter', mode=mode, what=p_[:30])))
                 # ---- Coq ----
